@@ -1,6 +1,6 @@
 (* C06 — Picture headers are parsed field-for-field as H.263 and Sorenson define them. *)
 From H263V Require Import base.Prelude model.Types model.Reader model.Header spec.SpecHeader
-  proofs.HeaderLemmas proofs.HeaderRoundTrip proofs.PlusRoundTrip proofs.HeaderReject.
+  proofs.HeaderLemmas proofs.HeaderRoundTrip proofs.PlusRoundTrip proofs.PlusChain proofs.HeaderReject.
 
 (* Sorenson Spark: for EVERY combination of version, temporal reference, size code (8- and 16-bit custom
    sizes, five fixed sizes, reserved), picture type, deblocking flag, quantizer and extra-information bytes,
@@ -45,6 +45,16 @@ Theorem C06_plus_inherits : forall h prev scal rest pos,
                = Ok (Some (picture_of_plus0 scal (inherited prev) h), mkReader rest pos').
 Proof. exact plus0_roundtrip. Qed.
 
+(* ... and they stay in force through ANY NUMBER of headers that do not retransmit them: after a run `hs` of UFEP = 000
+   headers (after_chain = the decoder's previous-header argument after parsing them one after another) the next one still
+   parses to the header carrying the ORIGINAL modes of `prev`, reading TRPI/BCI exactly when they say so *)
+Theorem C06_modes_persist : forall scal prev hs h rest pos,
+  wf_plus0 h ->
+  exists pos', decode_picture (mkOpts false scal) (after_chain scal prev hs)
+                 (mkReader (enc_plus0 scal (Z.testbit (inherited prev) 9) h ++ rest) pos)
+               = Ok (Some (picture_of_plus0 scal (inherited prev) h), mkReader rest pos').
+Proof. exact plus0_chain_roundtrip. Qed.
+
 (* wrong fixed marker bits are rejected, whatever the other bits are: PTYPE bits 1-2 ('10'), source format '000',
    reserved UFEP values, the last four bits of OPPTYPE ('1000'), the last three of MPPTYPE ('001'), bit 14 of CPFMT,
    PAR code 0 *)
@@ -86,3 +96,4 @@ Print Assumptions C06_plus_roundtrip.
 Print Assumptions C06_plus_inherits.
 Print Assumptions C06_markers_rejected.
 Print Assumptions C06_tr_range.
+Print Assumptions C06_modes_persist.
